@@ -78,7 +78,10 @@ claim("C06",
       "framework's own tree builder uses it; scope trees cover the scope variables' changes) and no operand of the emitted guard is truthy, the expression has the same "
       "value before and after - over the same analysis function whose printed guard and template-data tree expressions are compared byte for byte with the implementation, "
       "with the run-time helpers Z, Q.a, Q.b, Q.c, Object.assign modelled on trees; (3) objGOld_not_covering: the combination emitted at the pinned commit for a spread "
-      "operand is NOT covering (the failed proof step that produced finding D58, repaired in /repo). The tag / list level (if / for / template / slot bookkeeping, "
+      "operand is NOT covering (the failed proof step that produced finding D58, repaired in /repo); (4) keyed lists (GE/Thm/C06Rlm.lean, over a model of RangeListManager's "
+      "updateKeys and of the per-item trees of diff, compared with the real class in every run): the keys made unique are pairwise distinct for every list of keys "
+      "(uniq_nodup; fresh_not_used: the search for a free name ends, by pigeonhole), and marking_sound: when the tree marks every position whose key changed, an item "
+      "that is not told `true` and reuses an old node reuses the node of its own position (the statement finding D62 violated). The tag / list level (if / for / template / slot bookkeeping, "
       "RangeListManager) is checked by the oracle: create;update...(trees covering the diff by construction: exact/coarsened/true, and path writes fed to the real tree "
       "builder of tmpl/index.ts) vs fresh create under the real ProcGenWrapper/RangeListManager, over native nodes, stub components and a stub dynamic-slot component "
       "(content per slot instance, slot values changing between data updates; real slot-value parameters V/W in every other history).",
